@@ -1771,7 +1771,7 @@ class SQLParser:
             children_scanner = scanner.pop_as_children_scanner()
             compute_expression = cls._parse_compute_expression(children_scanner, sql_type)  # 解析
             children_scanner.close()
-            save_mode = static.GENERATE_COLUMN_SAVE_MODE_HASH.get(scanner.pop_as_source())
+            save_mode = static.GENERATE_COLUMN_SAVE_MODE_HASH.get(scanner.pop_as_source().upper())
             if save_mode is None:
                 raise SqlParseError(f"无法解析的计算字段存储类型: {scanner}")
             return node.ASTGeneratedColumn(
